@@ -97,11 +97,42 @@ def run(rep: Report, repo: Repo):
     rep.trusted = ['the static DSL reader and graph builder mirror bench.parse + eliminate_1to1_forks (their steps are checked by C19.ctor / C10.elim)']
     rep.assumptions = ['NOT DECIDED: that re-wiring by pin position yields the same Boolean function for every implementation shape; composition of transformations']
     cmod = repo.mod('circuit')
-    pickle_rules(rep, cmod)
-    copy_rules(rep, cmod)
-    elim_rules(rep, cmod)
-    resolve_rules(rep, cmod)
-    substitute_rules(rep, repo, cmod)
+    evaluated = hist = False
+    try:
+        from checks import c10_eval
+        evaluated = c10_eval.evaluate(rep, repo, cmod)
+    except ModelError as e:
+        rep.note(f'C10.function: substitute / eliminate_1to1_forks / the graph classes are outside the evaluated subset ({e}); the structural rules of C10 decide')
+    try:
+        from checks import c09
+        hist = c09.history_evaluated(rep, repo, cmod)       # copy() and the pickle round trip are evaluated along the edit histories of C09.history
+    except ModelError as e:
+        rep.note(f'C09.history: the graph classes are outside the evaluated subset ({e}); the structural rules C10.copy / C10.pickle decide')
+    rep._c10_evaluated, rep._c09_history = evaluated, hist
+    if not hist:
+        pickle_rules(rep, cmod)
+        copy_rules(rep, cmod)
+    if not evaluated:
+        elim_rules(rep, cmod)
+        resolve_rules(rep, cmod)
+        substitute_rules(rep, repo, cmod)
+
+
+def function_rules(rep, repo, cmod, what=('elim', 'resolve', 'substitute')):
+    """substitute / resolve / fork-elimination rules for checks that include them: the evaluated rule C10.function, the structural rules as fall-back"""
+    try:
+        from checks import c10_eval
+        if c10_eval.evaluate(rep, repo, cmod):
+            return True
+    except ModelError as e:
+        rep.note(f'C10.function: substitute / eliminate_1to1_forks / the graph classes are outside the evaluated subset ({e}); the structural rules of C10 decide')
+    if 'elim' in what:
+        elim_rules(rep, cmod)
+    if 'resolve' in what:
+        resolve_rules(rep, cmod)
+    if 'substitute' in what:
+        substitute_rules(rep, repo, cmod)
+    return False
 
 
 def pickle_rules(rep, cmod):
@@ -590,10 +621,16 @@ def depends(rep, repo):
     swap-with-last deletion, constructor pin selection, back-reference pairing). Rule ids keep their C09. prefix."""
     from checks import c09
     cmod = repo.mod('circuit')
-    c09.removal(rep, cmod)
+    if not getattr(rep, '_c09_history', False):
+        c09.removal(rep, cmod)
+        c09.ctor_order(rep, cmod)
     c09.swap_with_last(rep, cmod)
-    c09.ctor_order(rep, cmod)
-    c09.backrefs(rep, repo)
+    decided = ()
+    if getattr(rep, '_c09_history', False):
+        decided += ('Line.__init__', 'Line.remove', 'Node.__init__', 'Node.remove')
+    if getattr(rep, '_c10_evaluated', False):
+        decided += ('Circuit.substitute', 'Circuit.eliminate_1to1_forks', 'Circuit.resolve_tlib_cells')
+    c09.backrefs(rep, repo, decided=decided)
     c09.dangling(rep, cmod)
     # "library implementation circuits and pin tables" (techlib.py) are what substitute is given: the C19 rules are part of this check
     from checks import c19
